@@ -4,7 +4,7 @@ Trs == {"tcp", "ws", "inproc"}
 MCCases == {[op |-> o, tr |-> t] : o \in {"send", "receive", "accept"}, t \in Trs}
            \cup {[op |-> o, tr |-> t] : o \in {"chsend", "chsendnot", "chsendreq", "chsendresp", "pcmd"}, t \in Trs}
            \cup {[op |-> o, tr |-> t] : o \in {"estc", "ests", "finishc", "finishs", "fails"}, t \in Trs}
-           \cup {[op |-> o, tr |-> "tcp"] : o \in {"esttlsc", "esttlss"}}
+           \cup {[op |-> o, tr |-> "tcp"] : o \in {"esttlsc", "esttlss", "recvdrip"}}
 Dump == (now = 0) => PrintT("CASE " \o ToJson([cfg |-> [op |-> cs.op, tr |-> cs.tr, ctx |-> kind, endat |-> ctxEndAt,
                                                         wait |-> WaitKind(cs), bound |-> Bound(cs, kind), lat |-> Latency,
                                                         blocks |-> IF Blocks(cs) THEN "y" ELSE "n"]]))
